@@ -417,6 +417,8 @@ func (w *modSyntaxWorld) Check(c *core.Case) ([]core.Violation, bool) {
 		return vs, accepted
 	case "wf":
 		return checkWellFormed(c)
+	case "quote":
+		return checkQuote(c)
 	}
 	panic("modsyntax: unknown case kind " + c.K)
 }
@@ -836,4 +838,100 @@ func (w *modSyntaxWorld) Record(rng *rand.Rand, n int, emit func(k string, in, o
 		obs, _ := syntaxObs(data)
 		emit("syn", map[string]any{"s": concrete.Ints(string(data))}, obs)
 	}
+}
+
+// ---- the quoting rule (specification ModfileQuote): MustQuote / AutoQuote against the specification's verdict and text,
+// and the string pushed through the edit operations that write arguments with it, formatted and parsed strictly ----
+
+func checkQuote(c *core.Case) (vs []core.Violation, nontrivial bool) {
+	var in struct {
+		S []int `json:"s"`
+	}
+	var exp struct {
+		Must bool  `json:"must"`
+		Text []int `json:"text"`
+		Lone bool  `json:"lone"`
+		Repl bool  `json:"repl"`
+	}
+	if err := json.Unmarshal(c.In, &in); err != nil {
+		panic(err)
+	}
+	json.Unmarshal(c.Exp, &exp)
+	s := concrete.Str(in.S)
+	add := func(sig, format string, a ...any) {
+		vs = append(vs, core.Violation{Sig: sig, What: fmt.Sprintf(format, a...), Case: c})
+	}
+	defer func() {
+		if r := recover(); r != nil {
+			add("c02:quote-panic", "quoting %q panics: %v", s, r)
+			add("c08:quote-panic", "an edit operation with the argument %q panics: %v", s, r)
+		}
+	}()
+	if got := modfile.MustQuote(s); got != exp.Must {
+		add("c02:mustquote", "MustQuote(%q) = %v; the token rule says %v", s, got, exp.Must)
+	}
+	if got, want := modfile.AutoQuote(s), concrete.Str(exp.Text); got != want {
+		add("c02:autoquote", "AutoQuote(%q) = %s; the one token whose value is the string is %s", s, got, want)
+	}
+	if exp.Lone || s == "" {
+		return vs, true
+	}
+	// go.work: use <dir>, replace m => ./<dir>
+	wf, err := modfile.ParseWork("go.work", []byte("go 1.21\n"), nil)
+	if err != nil {
+		panic(err)
+	}
+	dir := "./" + s
+	if err := wf.AddUse(s, ""); err != nil {
+		core.NoteDrift(fmt.Sprintf("AddUse(%q) refused: %v", s, err))
+		return vs, true
+	}
+	if !exp.Repl {
+		dir = "./d"
+	}
+	if err := wf.AddReplace("example.com/m", "", dir, ""); err != nil {
+		core.NoteDrift(fmt.Sprintf("AddReplace(=> %q) refused: %v", dir, err))
+		return vs, true
+	}
+	wf.Cleanup()
+	out := modfile.Format(wf.Syntax)
+	wf2, err := modfile.ParseWork("go.work", out, nil)
+	if err != nil {
+		add("c08:quote-roundtrip", "after AddUse(%q) and AddReplace(=> %q) the formatted go.work does not parse strictly: %v\n%s", s, dir, err, out)
+		add("c02:quote-roundtrip", "a go.work with the directory %q written by the package's quoting rule does not parse: %v", s, err)
+		return vs, true
+	}
+	if len(wf2.Use) != 1 || wf2.Use[0].Path != s || len(wf2.Replace) != 1 || wf2.Replace[0].New.Path != dir {
+		add("c08:quote-roundtrip", "after AddUse(%q) and AddReplace(=> %q) the formatted go.work reads back as use %+v replace %+v\n%s", s, dir, usePaths(wf2), wf2.Replace, out)
+		add("c02:quote-roundtrip", "a go.work with the directory %q written by the package's quoting rule reads back differently", s)
+	}
+	// formatting the parsed file again changes nothing, and the values survive (C02, second sentence)
+	if out2 := modfile.Format(wf2.Syntax); !bytes.Equal(out, out2) {
+		add("c02:quote-idempotent", "formatting a go.work that uses %q twice gives different bytes:\n%s\n---\n%s", s, out, out2)
+	}
+	// go.mod: replace m => ./<dir>
+	mf, err := modfile.Parse("go.mod", []byte("module example.com/x\n"), nil)
+	if err != nil {
+		panic(err)
+	}
+	if err := mf.AddReplace("example.com/m", "", dir, ""); err == nil && exp.Repl {
+		mf.Cleanup()
+		if out, err := mf.Format(); err == nil {
+			mf2, err := modfile.Parse("go.mod", out, nil)
+			if err != nil {
+				add("c08:quote-roundtrip", "after AddReplace(=> %q) the formatted go.mod does not parse strictly: %v\n%s", dir, err, out)
+			} else if len(mf2.Replace) != 1 || mf2.Replace[0].New.Path != dir {
+				add("c08:quote-roundtrip", "after AddReplace(=> %q) the formatted go.mod reads back as %+v\n%s", dir, mf2.Replace, out)
+			}
+		}
+	}
+	return vs, true
+}
+
+func usePaths(wf *modfile.WorkFile) []string {
+	var ps []string
+	for _, u := range wf.Use {
+		ps = append(ps, u.Path)
+	}
+	return ps
 }
